@@ -6,6 +6,7 @@ import ExecnetVerif.Proofs.Net.Wire
 import ExecnetVerif.Proofs.Net.Got
 import ExecnetVerif.Proofs.Net.Cb
 import ExecnetVerif.Proofs.Net.Fin
+import ExecnetVerif.Props.C04Bytes
 namespace ExecnetVerif
 open Net
 
